@@ -158,6 +158,12 @@ def run(cx):
     # sent and received intact
     from bits import check_headers
     check_headers(cx, "C05.o", "C05.p")
+    # on an ideal network a sender stalled on the packet window / receive allocation learns the receiver's new window
+    # base only from the reply to its sync frame; and a not-yet-sent fragment that reads as acknowledged is dropped
+    from props.C11 import sync_reply_mechanism
+    sync_reply_mechanism(cx, "C05.v", "C05.w")
+    from props.C04 import inst_fragment_flags
+    inst_fragment_flags(cx, "C05.x")
     # both ends round the allocation limit alike; the per-frame datagram count fits its 7-bit wire field
     from props.C06 import inst_sibling_accounting
     inst_sibling_accounting(cx, "C05.q")
